@@ -705,6 +705,54 @@ func CorpusHistories(scratch string, names map[string]bool) ([]*History, []strin
 			}
 			return nil
 		}, func(g *Genesis) { easyParams(g); g.Params.SignedBlocksWindow, g.Params.MinSignedBlocks = 4, 2 }},
+		// every validator is reported absent in block 10, a height at which the reward-ledger root enters the
+		// application hash: the block writes nothing to the reward ledger, and a node restarted after it must
+		// still carry the root of height 10 into the hashes of blocks 11..13
+		{"quiet-block-at-a-reward-hash-height", 2, 2, 13, func(s *Sim, h int64) []*TxSpec {
+			switch h {
+			case 3:
+				return []*TxSpec{s.TxStake(s.User(0), s.Val(0).Addr, 3)}
+			case 10: // the votes of block h are about block h-1
+				s.scriptMiss = [][]byte{s.Val(0).Addr, s.Val(1).Addr}
+			case 12:
+				return []*TxSpec{s.TxTransfer(s.User(1), s.User(0).Addr, "5")}
+			}
+			return nil
+		}, nil},
+		// two candidates with the same power compete for the last seat: the one holding more stakes ranks
+		// first (power, then number of stakes, then address)
+		{"equal-power-more-stakes-takes-the-last-seat", 1, 2, 7, func(s *Sim, h int64) []*TxSpec {
+			a, b := s.User(0), s.User(1)
+			switch h {
+			case 2:
+				return SeqNonce([]*TxSpec{s.TxStake(a, a.Addr, 20), s.TxStake(b, b.Addr, 10), s.TxStake(b, b.Addr, 10)})
+			case 5:
+				return []*TxSpec{s.TxTransfer(a, b.Addr, "7")}
+			}
+			return nil
+		}, func(g *Genesis) { easyParams(g); g.Params.MaxValidatorCnt = 2 }},
+		// a delegator spends its whole balance and then asks for one unit of its reward: the request cannot
+		// pay its fee, is refused, and leaves the reward, the balance and the nonce as they were
+		{"withdrawal-that-cannot-pay-its-fee", 1, 2, 9, func(s *Sim, h int64) []*TxSpec {
+			u := s.User(0)
+			switch h {
+			case 2:
+				return []*TxSpec{s.TxStake(u, s.Val(0).Addr, 50)}
+			case 6:
+				t := s.TxTransfer(u, s.User(1).Addr, "0")
+				t.Gas = s.params.MinTrxGas
+				fee := new(big.Int).Mul(big.NewInt(int64(t.Gas)), u256(s.params.GasPrice).ToBig())
+				t.Amount = new(big.Int).Sub(s.balOf(u.Addr), fee).String()
+				t.Note = "script-transfer-of-the-whole-balance"
+				return []*TxSpec{t}
+			case 7, 8:
+				t := s.baseTx(8, u, zero32()[:20])
+				t.WithdrawReq = "1"
+				t.Note = "script-withdraw-without-the-fee"
+				return []*TxSpec{t}
+			}
+			return nil
+		}, nil},
 		// several unbonding stakes mature in one block: several removals in one ledger commit
 		{"many-refunds-in-one-block", 2, 3, 8, func(s *Sim, h int64) []*TxSpec {
 			switch h {
